@@ -26,7 +26,8 @@ ASSUMPTIONS = [
 def plan(tier):
     base = {"case_time_limit": 600,
             "required_classes": ["I:raw", "I:normalised", "I:real-state-complex-H", "T:thermal-prop", "T:exact", "P:exact-propagator", "X:evolve_exact",
-                                 "space:GS", "space:EX", "offset!=0", "family:pc", "family:ps", "family:vmf", "family:cmf", "modes:repeated-frequency", "T:exact-nonidentity-input",
+                                 "space:GS", "space:EX", "offset!=0", "family:pc", "family:ps", "family:vmf", "family:cmf", "modes:repeated-frequency", "T:exact-nonidentity-input", "X:mpdm-noncommuting-input",
+                                 "P:reference-tied-to-model-hamiltonian",
                                  "tree", "tree-scheme:prop_and_compress_tdrk4", "tree-scheme:tdvp_ps2"],
             "required_counters": {"oracle": 600, "ratios_measured": 40, "tree_thermal_runs": 20}}
     if tier == "quick":
@@ -219,6 +220,27 @@ def case_propagator(ctx):
     space = str(rng.choice(["GS", "EX"]))
     ctx.cls("P:exact-propagator", "space:" + space, f"scheme:{model.scheme}")
     Hloc = local_vib_hamiltonian(model, space)
+    # the formula above is the one the docstring states; it is tied to the MODEL's own Hamiltonian where that is possible:
+    # in the zero-exciton sector H is purely vibrational, and for one molecule with omega_e = omega_g the one-exciton block
+    # is H_loc(EX) plus a constant
+    Hfull = dense.op_dense(model.basis, model.ham_terms)
+    m0 = dense.sector_mask(model.basis, [0])
+    if space == "GS":
+        ctx.count("oracle")
+        ctx.cls("P:reference-tied-to-model-hamiltonian")
+        d = Hfull[np.ix_(m0, m0)] - Hloc[np.ix_(m0, m0)]
+        c = np.trace(d) / d.shape[0]          # the zero-point energy (model.gs_zpe) is not part of the propagator's Hamiltonian
+        ctx.close(d, c * np.eye(d.shape[0]), 1e-10, "P|local-vibrational-hamiltonian|zero-exciton-block-differs-by-more-than-a-constant",
+                  scale=max(float(np.linalg.norm(Hfull[np.ix_(m0, m0)])), 1.0))
+        ctx.close(c, float(model.gs_zpe), 1e-10, "P|local-vibrational-hamiltonian|constant-is-not-the-zero-point-energy", scale=max(1.0, abs(c)))
+    elif model.mol_num == 1 and all(abs(ph.omega[0] - ph.omega[1]) < 1e-14 for ph in model[0].ph_list):
+        m1 = dense.sector_mask(model.basis, [1])
+        d = Hfull[np.ix_(m1, m1)] - Hloc[np.ix_(m1, m1)]
+        c = np.trace(d) / d.shape[0]
+        ctx.count("oracle")
+        ctx.cls("P:reference-tied-to-model-hamiltonian")
+        ctx.close(d, c * np.eye(d.shape[0]), 1e-10, "P|local-vibrational-hamiltonian|one-exciton-block-differs-by-more-than-a-constant",
+                  scale=max(float(np.linalg.norm(Hfull[np.ix_(m1, m1)])), 1.0))
     kind = int(rng.integers(0, 3))
     mag = float(rng.uniform(0.05, 1.0))
     x = [-mag, -1j * mag, complex(-mag * 0.6, mag * 0.8)][kind] if rng.random() < 0.8 else [mag, 1j * mag, complex(mag, mag)][kind]
@@ -254,9 +276,14 @@ def case_propagator(ctx):
               offset=offset)
     if model.scheme < 4 or True:
         dm = ctx.lib(MpDm.max_entangled_ex if nexc else MpDm.max_entangled_gs, model, what="MpDm.max_entangled")
+        if rng.random() < 0.5:
+            # an input that does not commute with the propagator pins the documented side of the multiplication
+            dm = ctx.lib(MpDm.from_mps, mps, what="MpDm.from_mps")
+            ctx.cls("X:mpdm-noncommuting-input")
         M0 = states.dense_of(dm)
         out = ctx.lib(dm.evolve_exact, h_mpo, dt, space, what="MpDm.evolve_exact")
-        # the purified state is applied ON the propagator: rho -> rho . exp(-i H_loc t)
+        # documented in MpDm.evolve_exact ("Mpdm is applied on the propagator, different from base method"; the finite-
+        # temperature spectra use it for the bra side): rho -> rho . exp(-i H_loc t)
         want = M0 @ scipy.linalg.expm(-1j * dt * Hloc)
         ctx.count("oracle", 2)
         ctx.close(states.dense_of(out), want, 1e-10, "X|MpDm.evolve_exact|result-differs", scale=max(float(np.linalg.norm(want)), 1e-300),
